@@ -1,5 +1,7 @@
+\* regression: the :root/html post-pass before commit 'fix: CLI keeps an adjusted colour declared directly in a :root/html rule'
+\* TLC must report ReportedIsWrittenModuloF6 violated
 SPECIFICATION Spec
-CONSTANTS RootPostOverwrites = FALSE
+CONSTANTS RootPostOverwrites = TRUE
           FallbackWritten = TRUE
           NR = 2
 INVARIANT Partition
